@@ -26,6 +26,12 @@ Inductive case :=
    consumed [consumed] bytes; eq_native: the loaded value == the natively built one; answers: sampled queries agree *)
 | CStripW (path : N) (dbg : bool) (t : wty) (V : list N) (subset : N) (elems : list N) (extra : list N) (consumed : N)
           (eq_native answers : bool)
+(* CStripW / CStripS behind an option header: elems = [number of elements of the stripped file] ++ that file, loaded
+   as Option<T>; eq_native: the result is Some of a value == the natively built one *)
+| CStripWO (path : N) (dbg : bool) (t : wty) (V : list N) (subset : N) (elems : list N) (extra : list N) (consumed : N)
+           (eq_native answers : bool)
+| CStripSO (w path : N) (dbg : bool) (len : N) (multi : bool) (vals : list N) (subset : N) (elems : list N)
+           (extra : list N) (consumed : N) (eq_native answers : bool)
 (* SparseVector of (len, vals) built natively with low width w; elems = its file with the embedded high bitvector
    rewritten to carry only the supports of [subset] (bit 1 select, bit 2 select_zero; what another writer of the
    format produces); loading it (followed by [extra]) consumed [consumed] bytes; eq_native / answers as in CStripW *)
@@ -119,6 +125,34 @@ Definition check (c : case) : N :=
         end in
       let s_ok := eq_native && answers && (consumed =? 8 * lenN elems) in
       code m_ok s_ok
+  | CStripWO path dbg t V subset elems extra consumed eq_native answers =>
+      (* Option<V>::load reads the size element and then loads the value, whatever its in-memory size turns out to be *)
+      let m_ok := match elems with
+                  | n :: body => negb (n =? 0) && (n =? lenN body)
+                                 && SerWM.stripped_ok (sp_of path) (mode_of dbg) t V subset (stream body []) extra (consumed - 8)
+                                 && (8 <=? consumed)
+                  | [] => false
+                  end in
+      let s_ok := eq_native && answers && (consumed =? 8 * lenN elems) in
+      code m_ok s_ok
+  | CStripSO w path dbg len multi vals subset elems extra consumed eq_native answers =>
+      let sp := sp_of path in let m := mode_of dbg in
+      let bytes := stream elems [] in
+      let m_ok :=
+        match SerSparse.build_sv sp m w len multi vals with
+        | Some x =>
+            let c := SDS.Model.SerSparse.sparse_codec sp m in
+            let x' := SDS.Model.Sparse.mksv (SDS.Model.Sparse.sv_len x) (bv_restrict subset (SDS.Model.Sparse.sv_high x))
+                                            (SDS.Model.Sparse.sv_low x) in
+            nlist_eqb (c_enc (option_codec c) (Some x')) bytes
+            && match c_dec (option_codec c) (bytes ++ extra) with
+               | IoOk (Some y, rest) => SerSparse.sv_eqb x y && nlist_eqb rest extra && (consumed =? lenN bytes)
+               | _ => false
+               end
+        | None => false
+        end in
+      let s_ok := eq_native && answers && (consumed =? 8 * lenN elems) in
+      code m_ok s_ok
   | CCrash _ _ _ => 3
   end.
 
@@ -135,5 +169,9 @@ Definition explain (c : case) :=
       ([], fst (SerWM.bad_dec (sp_of path) (mode_of dbg) t (stream elems [] ++ extra)))
   | CStripS w path dbg len multi vals subset elems extra consumed eq_native answers =>
       ([], io_code (c_dec (SDS.Model.SerSparse.sparse_codec (sp_of path) (mode_of dbg)) (stream elems [] ++ extra)))
+  | CStripWO path dbg t V subset elems extra consumed eq_native answers =>
+      ([], fst (SerWM.bad_dec (sp_of path) (mode_of dbg) t (stream (tl elems) [] ++ extra)))
+  | CStripSO w path dbg len multi vals subset elems extra consumed eq_native answers =>
+      ([], io_code (c_dec (option_codec (SDS.Model.SerSparse.sparse_codec (sp_of path) (mode_of dbg))) (stream elems [] ++ extra)))
   | CCrash _ _ _ => ([], 98)
   end.
